@@ -446,7 +446,7 @@ impl Stake {
             }
             (Op::Claim, _) => {
                 let mine = expected_claims.entry(sender.to_string()).or_default();
-                let matured: u128 = mine.iter().filter(|c| c.1.expired(hgt, now)).map(|c| c.0).sum();
+                let matured: u128 = mine.iter().filter(|c| c.1.expired(hgt, now)).fold(0u128, |a, c| a.saturating_add(c.0));
                 let immature = mine.iter().filter(|c| !c.1.expired(hgt, now)).count();
                 if ok {
                     h.out.count("claims_ok");
@@ -527,8 +527,8 @@ impl Stake {
                 return false;
             }
             // fully backed
-            let owed: u128 = post.staked.values().sum::<u128>() + post.claims.values().flat_map(|v| v.iter().map(|c| c.0)).sum::<u128>();
-            if !h.check(post.holdings == owed + w.donated, &format!("C10/backing/{kind}/holdings-ne-stakes-plus-claims"), || {
+            let owed: u128 = post.staked.values().fold(0u128, |a, x| a.saturating_add(*x)).saturating_add(post.claims.values().flat_map(|v| v.iter().map(|c| c.0)).fold(0u128, |a, x| a.saturating_add(x)));
+            if !h.check(post.holdings == owed.saturating_add(w.donated), &format!("C10/backing/{kind}/holdings-ne-stakes-plus-claims"), || {
                 format!("holdings {} but stakes+claims {} (+ donated {})", post.holdings, owed, w.donated)
             }) {
                 return false;
